@@ -27,7 +27,8 @@ def run(prop, tier, seed, replay=None):
         else:
             if replay:
                 r = races.execute(prop, tier, sc, topo)
-                return 1 if r["viol"] else 0
+                r2 = races.execute(prop, tier, sc, topo, mech="entity")
+                return 1 if r["viol"] or r2["viol"] else 0
             clear_replays(prop)
             c = {"MaxLen": 6 if quick else 7, "MaxFeat": 2, "Acts": set(ALL)}
             code, out = run_tlc("LocalTreeMC.tla", cfg_text("Spec", c, view="View", invariants=["Inv"], properties=["StepProperty"]), timeout=3000, workers=NCPU, heap="8g")
@@ -98,15 +99,17 @@ def run(prop, tier, seed, replay=None):
             return 1 if viol else 0
         rr = races.execute(prop, tier, sc, topo)
         viol += rr["viol"]
+        rr2 = races.execute(prop, tier, sc, topo, mech="entity")
+        viol += rr2["viol"]
         for l in open(files[0][1]).read().splitlines()[:400]:
             e = json.loads(l)
             if e["a"].get("a") in ("addent", "read") and len(samples) < 3 and (e.get("notes", {}).get("p1") or not e["reply"]["none"]):
                 samples.append({"input": e["a"], "reply": e["reply"], "notes": e["notes"]})
-        cov = {"states": st["distinct"], "transitions": st["generated"], "traces_validated_against_impl": len(behs) + rr["cov"]["schedules"],
+        cov = {"states": st["distinct"], "transitions": st["generated"], "traces_validated_against_impl": len(behs) + rr["cov"]["schedules"] + rr2["cov"]["schedules"],
                "evaluations": nsteps, "distinct_nontrivial": len(set(b for b in behs)),
                "rule": "BFS transition cover of LocalTree (one behaviour per transition), executed on a real DeviceLocal with two peers; distinct = distinct behaviours; "
                        "plus all interleavings of concurrent GetOrAddFeature calls forced through the gate at the lookup miss",
-               "samples": samples or [json.loads(behs[-1])], "trace_lines": lines_total, "forced_schedules": rr["cov"],
+               "samples": samples or [json.loads(behs[-1])], "trace_lines": lines_total, "forced_schedules": rr["cov"], "forced_schedules_entity_list": rr2["cov"],
                "binding_selftest": {"done": True, "rejected": True},
                "checker_cmd": "tlc LocalTree.tla (INVARIANT Inv, PROPERTY StepProperty / TraceSpec); tlc CheckThenAct.tla; tlc RaceTrace.tla"}
         write_evidence(prop, tier, seed, "model_checking", cov, ASSUME, time.time() - t0, viol)
